@@ -507,6 +507,86 @@ def corrupt(doc, how):
 CORRUPT = ['no_obsdata', 'type_number', 'value_string', 'no_type', 'deltas_string', 'replica_noname', 'layout_number', 'obsdata_object']
 
 
+
+def doc_wire(o0):
+    """one parsed `obsdata` entry -> wire form of JsonDoc.SDoc (numbers bit exact)"""
+    from pe_util import f2b
+    data = [{'id': e['id'], 'replica': [{'name': r['name'], 'cfgs': [int(row[0]) for row in r['deltas']],
+                                         'x': [[f2b(float(v)) for v in row[1:]] for row in r['deltas']]} for r in e['replica']]}
+            for e in o0.get('data', [])]
+    cdata = [{'id': c['id'], 'shape': [int(t) for t in str(c.get('layout', '1')).split(',') if t.strip()],
+              'cov': [f2b(float(v)) for v in c['cov']], 'grad': [[f2b(float(v)) for v in g] for g in c['grad']]} for c in o0.get('cdata', [])]
+    return {'value': [f2b(float(v)) for v in o0['value']], 'data': data, 'cdata': cdata, 'reweighted': bool(o0.get('reweighted', False))}
+
+
+def check_doc_model(ctx, case, x, y, s):
+    """the numeric part of the document: written = model of the writer, imported = model of the reader"""
+    from pe_util import b2f, dump_obs
+    probs = []
+    flat = [x] if isinstance(x, pe.Obs) else (list(x) if isinstance(x, list) else list(np.ravel(x)))
+    got = [y] if isinstance(y, pe.Obs) else (list(y) if isinstance(y, list) else list(np.ravel(y)))
+    o0 = pyjson.loads(s)['obsdata'][0]
+    impl = doc_wire(o0)
+    r = ctx.lean.call({'op': 'jsondoc', 'what': 'write', 'obs': [dump_obs(o) for o in flat]})
+    if '_err' in r:
+        return [('disagree', 'lean-driver-error', r['_err'])]
+    m = r['doc']
+    ctx.count('doc-model:write')
+
+    def num(v):
+        return b2f(v)
+    sc = max([abs(num(v)) for e in impl['data'] for rp in e['replica'] for row in rp['x'] for v in row] + [abs(num(v)) for v in impl['value']] + [1e-300])
+    why = None
+    if [num(v) for v in m['value']] != [num(v) for v in impl['value']]:
+        why = 'value'
+    elif [(e['id'], [(rp['name'], rp['cfgs']) for rp in e['replica']]) for e in m['data']] != [(e['id'], [(rp['name'], rp['cfgs']) for rp in e['replica']]) for e in impl['data']]:
+        why = 'ensembles / replica names / configuration numbers of the data block'
+    elif any(len(a['x']) != len(b['x']) or any(len(u) != len(v) or not all(close(num(p), num(q), rtol=4e-16, scale=sc) for p, q in zip(u, v)) for u, v in zip(a['x'], b['x']))
+             for e1, e2 in zip(m['data'], impl['data']) for a, b in zip(e1['replica'], e2['replica'])):
+        why = 'stored numbers delta + (r - value)'
+    elif [(c['id'], c['shape']) for c in m['cdata']] != [(c['id'], c['shape']) for c in impl['cdata']]:
+        why = 'cdata ids / layout'
+    elif any([num(v) for v in a['cov']] != [num(v) for v in b['cov']] or [[num(v) for v in g] for g in a['grad']] != [[num(v) for v in g] for g in b['grad']]
+             for a, b in zip(m['cdata'], impl['cdata'])):
+        why = 'cdata cov / grad'
+    elif bool(m['reweighted']) != bool(impl['reweighted']):
+        why = 'reweighted'
+    if why:
+        probs.append(('disagree', 'doc-model-write', '%s: model %s vs written %s' % (why, str(m)[:200], str(impl)[:200])))
+        return probs
+    # reader: the model applied to the document the implementation wrote
+    r = ctx.lean.call({'op': 'jsondoc', 'what': 'read', 'doc': impl, 'k': len(flat)})
+    if '_err' in r:
+        return [('disagree', 'lean-driver-error', r['_err'])]
+    if 'exc' in r:
+        probs.append(('disagree', 'doc-model-read', 'model refuses the written document: %s' % r['exc']))
+        return probs
+    ctx.count('doc-model:read')
+    for i, (mo, go) in enumerate(zip(r['obs'], got)):
+        w = dump_obs(go)
+        d_ = None
+        if [rp['name'] for rp in mo['reps']] != [rp['name'] for rp in w['reps']]:
+            d_ = 'chain names %r vs %r' % ([rp['name'] for rp in mo['reps']], [rp['name'] for rp in w['reps']])
+        elif [rp['idl'] for rp in mo['reps']] != [rp['idl'] for rp in w['reps']]:
+            d_ = 'configuration lists'
+        elif num(mo['value']) != num(w['value']) or bool(mo['reweighted']) != bool(w['reweighted']):
+            d_ = 'value / flag'
+        else:
+            for a, b in zip(mo['reps'], w['reps']):
+                if len(a['deltas']) != len(b['deltas']) or not all(close(num(p), num(q), rtol=1e-13, scale=sc) for p, q in zip(a['deltas'], b['deltas'])) \
+                        or not close(num(a['rvalue']), num(b['rvalue']), rtol=1e-13, scale=sc):
+                    d_ = 'fluctuations / replica mean of %s' % a['name']
+                    break
+            if d_ is None and ([c['name'] for c in mo['covs']] != [c['name'] for c in w['covs']]
+                               or any([[num(v) for v in row] for row in a['cov']] != [[num(v) for v in row] for row in b['cov']] or [num(v) for v in a['grad']] != [num(v) for v in b['grad']]
+                                      for a, b in zip(mo['covs'], w['covs']))):
+                d_ = 'covariance inputs'
+        if d_:
+            probs.append(('disagree', 'doc-model-read', 'observable %d: %s' % (i, d_)))
+            break
+    return probs
+
+
 def check_case(ctx, case, collect=None):
     if case['struct'] == 'tree':
         return check_tree(ctx, case)
@@ -568,6 +648,8 @@ def check_case(ctx, case, collect=None):
             if s is not None and collect is not None:
                 doc = pyjson.loads(s)
                 collect.append((case, nan_to_num(doc)))
+            if ctx.lean is not None and s is not None and case['struct'] in ('obs', 'list', 'array') and not df_:
+                probs += check_doc_model(ctx, case, x, y, s)
             # replica-table model (exact rationals) for lists
             if ctx.lean is not None and case['struct'] == 'list' and s is not None:
                 doc = pyjson.loads(s)
